@@ -103,10 +103,22 @@ def sign_of(e):
     if f.is_nonnegative: return 'nonneg'
     if f.is_nonpositive: return 'nonpos'
     n, d = sp.fraction(f)
-    ds = 1 if d.is_positive else (-1 if d.is_negative else 0)
+    # denominators are assumed non-zero (identities and signs are claimed where the expression is defined)
+    ds = 1 if (d.is_positive or d.is_nonnegative) else (-1 if (d.is_negative or d.is_nonpositive) else 0)
+    if ds == 0:
+        try:
+            dd = sp.factor(d)
+            ds = 1 if (dd.is_positive or dd.is_nonnegative) else (-1 if (dd.is_negative or dd.is_nonpositive) else 0)
+        except Exception:
+            ds = 0
     if ds == 0:
         return None
-    n = sp.expand(n * ds)
+    n = n * ds
+    if n.is_positive: return 'pos'
+    if n.is_negative: return 'neg'
+    if n.is_nonnegative: return 'nonneg'
+    if n.is_nonpositive: return 'nonpos'
+    n = sp.expand(n)
     terms = n.as_ordered_terms()
     if all(t.is_nonnegative for t in terms):
         return 'pos' if any(t.is_positive for t in terms) else 'nonneg'
@@ -126,6 +138,7 @@ class Ctx:
         self.subs = {}          # plain symbol -> expr over plain symbols (re-parametrisation)
         self.newsym = None
         self.cnt = 0
+        self.atoms = set()
 
     def leaf(self, t):
         n = show(t, self.pv.names)
@@ -343,6 +356,10 @@ class Prover:
                 return a if op == 'max' else b
             if s in ('neg', 'nonpos'):
                 return b if op == 'max' else a
+            if ('ge', t[1], t[2]) in cx.atoms:
+                return a if op == 'max' else b
+            if ('lt', t[1], t[2]) in cx.atoms:
+                return b if op == 'max' else a
             raise NeedSplit(('ge', t[1], t[2]))
         if op == 'abs':
             a = self._conv(t[1], cx)
@@ -351,11 +368,16 @@ class Prover:
                 return a
             if s in ('neg', 'nonpos'):
                 return -a
+            if ('ge', t[1], ZERO) in cx.atoms:
+                return a
+            if ('lt', t[1], ZERO) in cx.atoms:
+                return -a
             raise NeedSplit(('ge', t[1], ZERO))
         return cx.leaf(t)
 
-    def _prove_flat(self, kind, goal, atoms):
+    def _prove_flat(self, kind, goal, atoms, _depth=0):
         cx = Ctx(self)
+        cx.atoms = {a for a in atoms if a[0] in ('ge', 'lt', 'gt', 'le')}
         rels = []
         opaque = 0
         # 1. leaf sign facts first (they do not depend on anything)
@@ -412,8 +434,9 @@ class Prover:
             if not done and op != 'ne':
                 # general linear form: the fact is c*X + rest OP 0 with numeric c for an otherwise unconstrained X
                 d = sp.expand(Ae - Be)
-                for X in sorted(d.free_symbols, key=lambda z: z.name):
-                    if X in cx.subs or cx.signs.get(X.name) or any(X in v.free_symbols for v in cx.subs.values()):
+                cands = sorted(d.free_symbols, key=lambda z: (1 if cx.signs.get(z.name) else 0, z.name))
+                for X in cands:
+                    if X in cx.subs or any(X in v.free_symbols for v in cx.subs.values()):
                         continue
                     c = d.coeff(X, 1)
                     if not c.is_number or c == 0:
@@ -426,11 +449,19 @@ class Prover:
                     nm = 's%d[%s]' % (cx.cnt, X.name)
                     base = -rest / c
                     if o == 'eq':
-                        cx.subs[X] = base
+                        new = base
                     elif o in ('gt', 'ge'):
-                        cx.subs[X] = base + (sp.Symbol(nm, positive=True) if o == 'gt' else sp.Symbol(nm, nonnegative=True))
+                        new = base + (sp.Symbol(nm, positive=True) if o == 'gt' else sp.Symbol(nm, nonnegative=True))
                     else:
-                        cx.subs[X] = base - (sp.Symbol(nm, positive=True) if o == 'lt' else sp.Symbol(nm, nonnegative=True))
+                        new = base - (sp.Symbol(nm, positive=True) if o == 'lt' else sp.Symbol(nm, nonnegative=True))
+                    ks = cx.signs.get(X.name)
+                    if ks:
+                        sg = sign_of(cx.apply(new))
+                        if not all(_implies(sg, k) for k in ks):
+                            continue
+                        cx.signs.pop(X.name)
+                        cx.newsym = None
+                    cx.subs[X] = new
                     done = True
                     break
             if not done:
@@ -439,10 +470,30 @@ class Prover:
         unconf = []
         for op, Ae, Be in unused:
             d = cx.apply(Ae - Be)
-            ok, contra = _fact_status(op, sign_of(d))
+            sg = sign_of(d)
+            ok, contra = _fact_status(op, sg)
             if contra:
                 raise Infeasible()
+            if not ok and sg is not None and sg != 'zero':
+                # a strict fact whose weak form is decided (d <= 0 known, d < 0 asked) holds on a dense open part of the
+                # region unless d vanishes identically; same for d != 0
+                if (op == 'lt' and sg == 'nonpos') or (op == 'gt' and sg == 'nonneg') or op == 'ne':
+                    ok = True
             if not ok:
+                # a sum of non-negative terms that is <= 0 (or non-positive terms >= 0): every term is zero
+                if (op == 'le' and sg == 'nonneg') or (op == 'ge' and sg == 'nonpos'):
+                    zs = []
+                    for tm in sp.expand(d).as_ordered_terms():
+                        c, rest = tm.as_coeff_Mul()
+                        if rest.is_Symbol:
+                            nm = rest.name[1:] if rest.name.startswith('−') else rest.name
+                            if nm in cx.leaf_term:
+                                zs.append(('eq', cx.leaf_term[nm], ZERO))
+                                continue
+                        zs = None
+                        break
+                    if zs and _depth < 3:
+                        return self._prove_flat(kind, goal, [a for a in atoms] + zs, _depth + 1)
                 unconf.append(d.free_symbols)
         e = self._conv(goal, cx)
         r = cx.apply(e)
